@@ -789,6 +789,11 @@ func AtomMustPass(a RetAtom, c *cut) bool {
 		}
 		return false
 	}
+	if a.Store == nil {
+		// the value is established at the Return itself: the Return is
+		// reachable without hitting the cut
+		return false
+	}
 	if c.instrs[target] {
 		return true
 	}
